@@ -35,3 +35,8 @@ package withstack
 //@ method (*stack).StackTrace
 //@   props C05 C11
 //@   loop 1: invariant 0 <= i
+
+//@ method (*withStack).SafeDetails
+//@   props C03 C12 C11
+//@   ensures len(result) == 1
+//@   ensures[C03] safeSeq(result)
